@@ -76,6 +76,19 @@ def run(prop, tier, replay=None):
             if not vlib.tlc_ok(r):
                 broken.append("Sketch model check %s: %s" % (r["tag"], r["out"][-1500:]))
         ex.shutdown()
+    if not replay:
+        # admission as the eviction pass really applies it: the real policy replayed on Policy.tla (PolicyTrace.tla, C18.displaced_*)
+        import polcheck
+        pcov, pviol, pbroken = polcheck.run(prop, tier, None, collect_only=True)
+        cov["policy_events"] = pcov["events"]
+        cov["policy_drift"] = pcov["drift"]
+        cov["traces_validated_against_impl"] += pcov["traces_validated_against_impl"]
+        cov["states"] += pcov["states"]
+        cov["transitions"] += pcov["transitions"]
+        cov["mc"] += pcov["mc"]
+        broken += pbroken
+        for pred, detail, path in pviol:
+            violations.append((pred, detail, path))
     cov["explanation"] = ("states/transitions: TLC totals for Sketch.tla (every hash assignment of a 4-row sketch with 2-3 slots per row); "
                           "events: calls on the real sketch / policy.admit folded by SketchTrace.tla (12 keys, capacities 1..4097, fresh seeds per run)")
     vlib.write_evidence(prop, tier, "model_checking", cov, time.time() - t0, violations=len(violations),
